@@ -103,7 +103,7 @@ def stub_subspace_minimization(x, x_cp, free_vars, Z, A, c, grad, lb, ub, mats, 
         if not ub.data[i].is_special:
             CTX.assume(v.z() <= ub.data[i].z(), check=False)
         gd = gd + grad.data[i] * (v - x.data[i])
-    CTX.assume(_b(gd < 0))
+    CTX.assume(_b(gd < 0), contract="direction")
     xbar = np.array(list(vals))
     ST.dir_calls.append(dict(x=list(x.data), grad=list(grad.data), S=S if nm else None, Y=Y if nm else None, theta=mats.theta, xbar=list(vals), nm=nm))
     return xbar
@@ -156,11 +156,15 @@ def stub_line_search(x0, f0, g0, d, lb, ub, above_iter, max_steplength_user, is_
         # x0 + a d is a convex combination of x0 and xbar, both in the box: state it, so that the projection the
         # real code applies to trial points / the iterate is the identity syntactically (exact arithmetic)
         tp = x0 + al * d
+        inbox = []
         for i in range(n):
             if not lb.data[i].is_special:
-                CTX.assume(_b(tp.data[i] >= lb.data[i]), check=False)
+                inbox.append(_b(tp.data[i] >= lb.data[i]))
             if not ub.data[i].is_special:
-                CTX.assume(_b(tp.data[i] <= ub.data[i]), check=False)
+                inbox.append(_b(tp.data[i] <= ub.data[i]))
+        inbox = [c for c in inbox if c is not True]
+        if inbox:
+            CTX.assume(z3.And(*inbox) if len(inbox) > 1 else inbox[0], check=False, contract="line_search")
         if ST.assume_new_trial:
             # relational harnesses: a trial point is a new point (cuts the wrapper's memo-hit-by-coincidence fork)
             e = _eq_point(list((x0 + al * d).data), list(sf.x.data))
@@ -232,7 +236,7 @@ def stub_approx_derivative(fun, x0, method="3-point", rel_step=None, abs_step=No
             if not ubd[i].is_special:
                 c.append(p[i].z() <= ubd[i].z())
             c.append(h.z() != 0)
-            CTX.assume(z3.And(*c), check=False)
+            CTX.assume(z3.And(*c), check=False, contract="approx_derivative")
             if method != "cs":
                 fun(np.array(p))
             else:
